@@ -1,11 +1,28 @@
 /-
-  Scc.Props.C04Sem — the full statement of C04 with the focused-Core machine of `Scc/Core/Sem.lean`
-  plugged in (`C04_full_statement`).  Not proved.  Evidence: `Core.fsRun` on the S3 dump and
-  `AxCut.Named.run` on the model's S4 agree (trace, result, kind of stuck state) on 157 runs over the
-  29 corpus programs that have a `main` (tools/semcmp.py), and S4 = harness S4 on all of them.
+  Scc.Props.C04Sem — the semantic part of C04 with the focused-Core machine of `Scc/Core/Sem.lean`
+  plugged in.
+
+  * `C04_sem`  (THEOREM, = `C04_sem_statement`)  shrinking preserves behaviour: for every focused Core
+      program accepted by `wtFsScopedCheck`, `uniqueIdsCheck`, `idsBoundedCheck`, `mainIntParams` whose first
+      definition is `main`, every argument list and all fuel, `Core.fsRun` on the program and
+      `AxCut.Named.run` on its image under `shrinkProg` have the same trace and result (`SameBehaviour`, both
+      directions; stuck states and arithmetic faults correspond).  Covers all arms of `FsCut::shrink`
+      including the lifting of critical pairs and the sharing of leaf statements.
+      Proof files: `Scc/Core2AxCut/Sem{Rel,Run,Lemmas,Sim,SimCut,Subst,Ren,Fv,Tr,Lift,TrCut,Prog}.lean`.
+  * `C04_sem_nolift`  (THEOREM)  the fragment without lifting (`noLiftCheck`), delivered first.
+  * `C04_full_statement`  (`def … : Prop`, kept visible) is FALSE as it stands: `C04_full_statement_false`.
+      It lacks exactly the two side conditions added in `C04_sem_statement`, both decidable, both satisfied
+      by every S3 dump of the corpus (238 programs, evaluated):
+        - `idsBoundedCheck`: parameter and binder ids `≤ p.maxId` (counterexample `C04SemCounter.prog2`);
+        - `mainIntParams`: the parameters of `main` are integer producers (counterexample `C04Example.prog`
+          with the argument list `[5]`).
+      Neither is a defect of /repo: the dumps of the real pipeline satisfy both.
+  Earlier evidence (testing): `Core.fsRun` on the S3 dump and `AxCut.Named.run` on the model's S4 agree on
+  157 runs over the 29 corpus programs that have a `main` (tools/semcmp.py), and S4 = harness S4 on all.
 -/
 import Scc.Props.C04
 import Scc.Core.Sem
+import Scc.Core2AxCut.SemProg
 
 namespace Scc.Props
 open Scc.Core2AxCut
@@ -53,4 +70,168 @@ example : (shrinkProg prog).toOption.map (fun q => (AxCut.Named.run q [] 50).out
 
 end C04SemExample
 
+/-! ## the semantic theorem -/
+
+/-- C04, semantic statement as proved: `C04_full_statement` with two further decidable hypotheses that
+    every program of the pipeline satisfies and without which the statement is false
+    (`C04_full_statement_false`):
+    * `idsBoundedCheck p`: the parameter and binder ids of `p` are `≤ p.maxId` (`uniqueIdsCheck` only says
+      that they are pairwise distinct; `fresh_identifier` draws `max_id + 1`, so a counter that is too small
+      makes the fresh names of `shrink_literal_var` etc. capture program variables);
+    * `mainIntParams p`: the parameters of `main` are integer producers (the Core machine binds a consumer
+      parameter of `main` to `halt` without taking an argument, the AxCut machine expects one argument per
+      parameter). -/
+def C04_sem_statement : Prop :=
+  ∀ (p : Core.FsProg) (q : AxCut.Prog) (args : List (BitVec 64)),
+    wtFsScopedCheck p = true → uniqueIdsCheck p = true → idsBoundedCheck p = true → mainIntParams p = true →
+    (∃ d ds, p.defs = d :: ds ∧ d.name.name = "main") → shrinkProg p = .ok q →
+    SameBehaviour (coreFsRun p args) (AxCut.Named.run q args)
+
+/-- from the run-level correspondence of `Scc/Core2AxCut/SemProg.lean` to `SameBehaviour` -/
+theorem sameBehaviour_of_runs {p : Core.FsProg} {q : AxCut.Prog} {args : List (BitVec 64)}
+    (h1 : ∀ n, Sem.CFin (Core.fsRun p args n).res →
+      ∃ m, (AxCut.Named.run q args m).out = (Core.fsRun p args n).out ∧
+        Sem.ResMatch (Core.fsRun p args n).res (AxCut.Named.run q args m).res)
+    (h2 : ∀ m, Sem.Fin (AxCut.Named.run q args m).res →
+      ∃ n, (Core.fsRun p args n).out = (AxCut.Named.run q args m).out ∧
+        Sem.ResMatch (Core.fsRun p args n).res (AxCut.Named.run q args m).res) :
+    SameBehaviour (coreFsRun p args) (AxCut.Named.run q args) := by
+  constructor
+  · intro n hfin
+    have hc : Sem.CFin (Core.fsRun p args n).res := by
+      simp only [coreFsRun, coreBehaviour] at hfin
+      cases hr : (Core.fsRun p args n).res with
+      | done v => exact .inl ⟨v, rfl⟩
+      | stuck w => exact .inr ⟨w, rfl⟩
+      | outOfFuel => simp [hr] at hfin
+    obtain ⟨m, ho, hm⟩ := h1 n hc
+    refine ⟨m, by simpa [coreFsRun, coreBehaviour] using ho, ?_⟩
+    simp only [coreFsRun, coreBehaviour]
+    cases hr : (Core.fsRun p args n).res with
+    | done v =>
+      rw [hr] at hm
+      exact .inl ⟨v, rfl, hm⟩
+    | stuck w =>
+      rw [hr] at hm
+      exact .inr ⟨⟨_, rfl⟩, hm⟩
+    | outOfFuel => rw [hr] at hm; cases hm
+  · intro m hfin
+    obtain ⟨n, ho, hm⟩ := h2 m hfin
+    refine ⟨n, by simpa [coreFsRun, coreBehaviour] using ho, ?_⟩
+    simp only [coreFsRun, coreBehaviour]
+    cases hr : (Core.fsRun p args n).res with
+    | done v =>
+      rw [hr] at hm
+      exact .inl ⟨v, hm, rfl⟩
+    | stuck w =>
+      rw [hr] at hm
+      exact .inr ⟨hm, ⟨_, rfl⟩⟩
+    | outOfFuel => rw [hr] at hm; cases hm
+
+/-- C04_sem: semantic preservation of shrinking (`C04_sem_statement`), for all programs, arguments and
+    fuel: on every well-typed, well-scoped focused Core program with unique binder ids bounded by `maxId`
+    whose first definition is `main` with integer parameters, the focused Core machine on `p` and the named
+    AxCut machine on `shrinkProg p` have the same trace and result, in both directions.
+    Proof: a forward simulation (`Scc/Core2AxCut/SemSimCut.lean: sim_tr`) for the translation judgment `Tr`
+    (one Core step is matched by `k ≥ 0` AxCut steps; `k = 0` only for renaming and known cuts, which make the
+    statement smaller), `shrinkStmt ⊆ Tr` (`SemTrCut.lean: shrinkStmt_tr`, including the lifting of critical
+    pairs, `SemLift.lean: lift_tr`, and the closure of `Tr` under the AxCut-side substitution of
+    `criticalClauses`, `SemSubst.lean: Tr.axSubst`), determinism of both machines (`SemRun.lean`). -/
+theorem C04_sem : C04_sem_statement := by
+  intro p q args hwt hu hb hint hmain h
+  obtain ⟨h1, h2⟩ := Sem.sem_runs args hwt hu hb hint hmain h
+  exact sameBehaviour_of_runs h1 h2
+
+/-- C04_sem_nolift: the fragment WITHOUT lifting (delivered first; now a corollary of `C04_sem`) — programs in
+    which every critical pair `⟨μa.s1 | μ~x.s2⟩` at a declared type satisfies the sharing condition of
+    `shrink_critical_pairs` (at most one xtor, or the expanded side is a leaf), so that `lift` is never
+    called (`noLiftCheck`). -/
+theorem C04_sem_nolift (p : Core.FsProg) (q : AxCut.Prog) (args : List (BitVec 64))
+    (hwt : wtFsScopedCheck p = true) (hu : uniqueIdsCheck p = true) (hb : idsBoundedCheck p = true)
+    (hint : mainIntParams p = true) (_hnl : noLiftCheck p = true)
+    (hmain : ∃ d ds, p.defs = d :: ds ∧ d.name.name = "main") (h : shrinkProg p = .ok q) :
+    SameBehaviour (coreFsRun p args) (AxCut.Named.run q args) :=
+  C04_sem p q args hwt hu hb hint hmain h
+
+/-! ### non-vacuity of `C04_sem`: `C04SemExample.prog` (the critical pair at `List` is lifted to
+`lift_main__6`, which receives the free variable `x` as its parameter `x_5`) satisfies all hypotheses -/
+
+example : wtFsScopedCheck C04SemExample.prog = true ∧ uniqueIdsCheck C04SemExample.prog = true ∧
+    idsBoundedCheck C04SemExample.prog = true ∧ mainIntParams C04SemExample.prog = true ∧
+    noLiftCheck C04SemExample.prog = false := by decide
+example : (shrinkProg C04SemExample.prog).toOption.map (fun q => q.defs.map (·.ctx.length)) = some [0, 1] := by
+  decide
+
+/-! ### non-vacuity of `C04_sem_nolift`: a critical pair at the two-constructor type `List` whose
+expanded side is the leaf `exit x` (shared, not lifted), inside a `μ~` that binds an integer -/
+
+namespace C04SemNoLiftExample
+open Scc C04SemExample
+
+def body : Core.FsStmt :=
+  .cut .i64 (.lit 5) (.mu .cns x1 .i64
+    (.cut listTy (.mu .prd b4 listTy (.cut listTy (.xtor .prd ⟨"Nil", 0⟩ [] listTy) (.var .cns b4 listTy)))
+      (.mu .cns l3 listTy (.exit x1))))
+def prog : Core.FsProg := ⟨[⟨⟨"main", 0⟩, [], body⟩], [listDecl], [], 4⟩
+
+example : wtFsScopedCheck prog = true ∧ uniqueIdsCheck prog = true ∧ idsBoundedCheck prog = true ∧
+    mainIntParams prog = true ∧ noLiftCheck prog = true := by decide
+example : ∃ d ds, prog.defs = d :: ds ∧ d.name.name = "main" := ⟨_, _, rfl, rfl⟩
+example : (shrinkProg prog).toOption.map (fun q => q.defs.length) = some 1 := by decide
+example : (coreFsRun prog [] 50).out = [] ∧ (Core.fsRun prog [] 50).res = .done 5#64 := by decide
+
+end C04SemNoLiftExample
+
+/-! ## the full statement is false as it stands -/
+
+/-- `C04_full_statement` does not hold: `C04Example.prog` (`main(x; a)` with a consumer parameter `a`)
+    satisfies its hypotheses; on the argument list `[5]` the Core machine binds `a` to `halt`, prints 5 and
+    finishes with 5, while the AxCut machine refuses to start (`main: arity`: two parameters, one argument).
+    A second counterexample, with `main()` closed but `maxId = 0` smaller than the ids in use, is
+    `C04SemCounter.prog2` below (checked by evaluation). -/
+theorem C04_full_statement_false : ¬ C04_full_statement := by
+  intro hfull
+  obtain ⟨q, hq⟩ := C04_no_panic C04Example.prog (by decide)
+  have hsame := hfull C04Example.prog q [5#64] (by decide) (by decide) ⟨_, _, rfl, rfl⟩ hq
+  have hres : (Core.fsRun C04Example.prog [5#64] 50).res = .done 5#64 := by decide
+  have hout : (Core.fsRun C04Example.prog [5#64] 50).out = [(true, 5#64)] := by decide
+  obtain ⟨m, ho, _⟩ := hsame.1 50 (.inl ⟨5#64, by simp [coreFsRun, coreBehaviour, hres]⟩)
+  have hl : q.defs.head?.map (fun d => d.ctx.length) = some 2 := by
+    have : (shrinkProg C04Example.prog).toOption.map (fun q => q.defs.head?.map (fun d => d.ctx.length)) =
+        some (some 2) := by decide
+    rw [hq] at this
+    simpa [Except.toOption] using this
+  have hax : (AxCut.Named.run q [5#64] m).out = [] := by
+    simp only [AxCut.Named.run]
+    cases hd : q.defs with
+    | nil => rfl
+    | cons d' rest =>
+      simp only [hd, List.head?_cons, Option.map_some, Option.some.injEq] at hl
+      simp only
+      rw [Sem.bindParams_none d'.ctx _ (by simp [hl])]
+  rw [hax] at ho
+  simp [coreFsRun, coreBehaviour, hout] at ho
+
+namespace C04SemCounter
+open Scc
+
+def a1 : Core.Ident := ⟨"a", 1⟩
+def x2 : Core.Ident := ⟨"x", 2⟩
+/-- `main() { ⟨ μa1.⟨3 | a1⟩ | μ~x2. exit x2 ⟩ }` with `maxId = 0`: `shrink_literal_var` draws the fresh
+    variable `x_1`, which has the id of `a1` -/
+def body2 : Core.FsStmt :=
+  .cut .i64 (.mu .prd a1 .i64 (.cut .i64 (.lit 3) (.var .cns a1 .i64))) (.mu .cns x2 .i64 (.exit x2))
+def prog2 : Core.FsProg := ⟨[⟨⟨"main", 0⟩, [], body2⟩], [], [], 0⟩
+
+example : wtFsScopedCheck prog2 = true ∧ uniqueIdsCheck prog2 = true ∧ idsBoundedCheck prog2 = false := by decide
+example : (Core.fsRun prog2 [] 50).res = .done 3#64 := by decide
+-- the AxCut machine is stuck (`invoke: not a closure`): its trace is empty and it never prints or finishes
+example : (shrinkProg prog2).toOption.map (fun q => (AxCut.Named.run q [] 50).out) = some [] := by decide
+
+end C04SemCounter
+
 end Scc.Props
+
+#print axioms Scc.Props.C04_sem
+#print axioms Scc.Props.C04_sem_nolift
+#print axioms Scc.Props.C04_full_statement_false
